@@ -34,6 +34,13 @@ def compare_generic(run, key, rp, den, frames, data, delimited):
         run.violation({"clause": "valid-stream-rejected", "parse": "generic.flat", **key}, f"parser raised on a valid stream: {flat}", rp)
         return n
     got = [terms.norm_item(x) for x in flat]
+    for label, src in impl.other_sources(data):
+        alt = _safe(impl.parse, "generic", src, "flat")
+        n += 1
+        if isinstance(alt, str):
+            run.violation({"clause": "valid-stream-rejected", "parse": "generic.flat", "source": label, **key}, f"parser raised on a valid stream read from {label}: {alt}", rp)
+        elif [terms.norm_item(x) for x in alt] != got:
+            run.violation({"clause": "denotation-differs", "parse": "generic.flat", "source": label, **key}, f"read from {label}: {len(alt)} items, from BytesIO {len(got)}", rp)
     if got != want:
         k = next((i for i, (a, b) in enumerate(zip(got, want)) if a != b), min(len(got), len(want)))
         run.violation({"clause": "denotation-differs", "parse": "generic.flat", **key},
